@@ -81,15 +81,17 @@ SHAPES = [
 ]
 
 
-def header(size, ver=2, comp=b'INFO', wrap=254, hdr=(0x20, 0x01, 0x42)):
+def header(size, ver=2, comp=b'INFO', wrap=254, hdr=(0x20, 0x01, 0x42), rsvd='00000000', tail=0):
     c = comp + b'\0' * (12 - len(comp)) if len(comp) <= 12 else comp[:12]
-    return bytes([ver]) + bytes(hdr) + c + b'\0' * 4 + struct.pack('>III', size & 0xffffffff, wrap, 0)
+    return bytes([ver]) + bytes(hdr) + c + bytes.fromhex(rsvd) + struct.pack('>III', size & 0xffffffff, wrap, tail & 0xffffffff)
 
 
 HEADERS = [dict(), dict(ver=0, comp=b'TWELVECHARSX', wrap=0), dict(ver=255, comp=b'POWR    ', wrap=0xffffffff),
            dict(comp=b'FANS\0\0\0\0    ', wrap=1),
            # the three bytes after the version (header length, time flag, endian flag) are stored but not shown
-           dict(hdr=[0x40, 0x00, 0x4c]), dict(hdr=[0x00, 0xff, 0x00], comp=b'ERRL'), dict(hdr=[0xff, 0x01, 0x42], wrap=7)]
+           dict(hdr=[0x40, 0x00, 0x4c]), dict(hdr=[0x00, 0xff, 0x00], comp=b'ERRL'), dict(hdr=[0xff, 0x01, 0x42], wrap=7),
+           # so are the reserved word behind the component name and the last word of the header
+           dict(comp=b'FANS', rsvd='52535644'), dict(comp=b'TWELVECHARSX', rsvd='00000001', tail=0xffffffff), dict(rsvd='20202020', tail=1)]
 
 
 def bounds(tier):
